@@ -1,15 +1,16 @@
 #!/usr/bin/env python3
-"""applies each semantics-preserving patch in /tmp/mut/harmless to /repo, runs the checks of the properties anchored
+"""applies each semantics-preserving patch in /verif/seeded/harmless to /repo, runs the checks of the properties anchored
 in the touched files, reverts; reports which checks raise an alarm (they should not, except `no-failing-input-found`
 where an extracted shape changed)."""
 import json, glob, subprocess, os, re, sys
-ENV = dict(os.environ, GOFLAGS="-mod=mod", GOPROXY="off", GOSUMDB="off", GOTOOLCHAIN="local", VERIF_EVIDENCE_DIR="/tmp/mut/evidence-scratch")
+ENV = dict(os.environ, GOFLAGS="-mod=mod", GOPROXY="off", GOSUMDB="off", GOTOOLCHAIN="local", VERIF_EVIDENCE_DIR="/tmp/evidence-scratch")
 props = [json.loads(l) for l in open("/verif/properties.jsonl")]
 def sh(cmd, cwd):
     p = subprocess.run(cmd, cwd=cwd, shell=True, env=ENV, stdout=subprocess.PIPE, stderr=subprocess.STDOUT, text=True)
     return p.returncode, p.stdout
-res = {}
-for patch in sorted(glob.glob("/tmp/mut/harmless/*.patch.diff")):
+RES = "/verif/seeded/harmless-results.json"
+res = json.load(open(RES)) if os.path.exists(RES) and sys.argv[1:] else {}
+for patch in sorted(glob.glob("/verif/seeded/harmless/*.patch.diff")):
     nn = os.path.basename(patch)[:2]
     files = re.findall(r"^\+\+\+ b/(\S+)", open(patch).read(), re.M)
     pids = sorted({p["id"] for p in props for f in files if f in p["anchors"]["files"]})
@@ -31,4 +32,4 @@ for patch in sorted(glob.glob("/tmp/mut/harmless/*.patch.diff")):
         sh("git checkout -- . && git clean -fdq", "/repo")
     res[nn] = {"files": files, "what": open(patch.replace(".patch.diff", ".txt")).read().strip()[:200], "checks": out}
     print(nn, files, {k: v[:120] for k, v in out.items()})
-json.dump(res, open("/verif/seeded/harmless-results.json", "w"), indent=1)
+json.dump(dict(sorted(res.items())), open(RES, "w"), indent=1)
